@@ -224,3 +224,21 @@ package js_parser
 // Foo().#x`), and a private name outside a class body is a SyntaxError in every engine. Nothing about a member other
 // than "its key is a private name" may exempt it; the same goes for names flagged because of a brand check.
 //@ guarded lowering-static-fields-lowers-every-private-member C14: func=(*parser).visitClass ; in=js_parser ; site=store Symbol.Flags ; when=*|8 ; scenario=static_block_instance_private ; allow-only=true:*lowerAllStaticFields && true:phi:rangeindex+1<call len(class.Properties) && true:*.Key.Data#1 && true:p.lowerAllOfThesePrivateNames!=nil && true:p.lowerAllOfThesePrivateNames[*]
+
+// C15 ("a name that a direct eval can see is never renamed"): inside a class body the class is known by an inner
+// immutable name symbol (original name "_Foo") that lowerClass merges into the class's real name symbol. If the body
+// contains a direct eval the inner symbol is already pinned when the merge happens, and MergeContentsWith lets a pinned
+// symbol impose ITS name on an unpinned one: the class would be printed as `_Foo` while eval('Foo') still says Foo. The
+// pin must therefore be copied to the real name symbol BEFORE every such merge (statement and expression alike).
+//@ flow pin-copied-before-inner-class-name-merge C15: func=(*parser).lowerClass ; in=js_parser ; site=call mergeSymbols ; when-arg=2:*.class.Name.Ref ; scenario=class_expr_eval_name ; preceded-by-store=Symbol.Flags:*innerClassNameRef*.Flags&1* OR *.class.Name.Ref*.Flags|1
+//@ flow pin-copied-before-inner-class-name-merge.stmt C15: func=(*lowerClassContext).finishAndGenerateCode ; in=js_parser ; site=call mergeSymbols ; when-arg=2:*.class.Name.Ref ; scenario=class_expr_eval_name ; preceded-by-store=Symbol.Flags:*innerClassNameRef*.Flags&1* OR *.class.Name.Ref*.Flags|1
+
+// C15 (block-level function declarations): whether `{ function f(){} }` also creates a function-level `var f` (Annex
+// B.3.3) is decided by hoistSymbols from Scope.StrictMode, BETWEEN the parse pass and the visit pass. All code inside a
+// class body is strict (ECMA-262 11.2.2), so a class body scope must already be strict when the parse pass creates it,
+// not only once the visit pass reaches the class.
+//@ func (*parser).pushScopeForParsePass
+//@   arith int
+//@   prop C15
+//@   opt scenario class_strict_block_fn
+//@   ensures class-body-is-strict-from-the-parse-pass: kind == js_ast.ScopeClassBody ==> p.currentScope.StrictMode != js_ast.SloppyMode
